@@ -85,7 +85,7 @@ m("numpy-reduce_sum-rho", ["C17"], "src/vector/backends/numpy.py", "    fields[\
 m("numpy-count_nonzero-omits-t", ["C17"], "src/vector/backends/numpy.py", "        is_nonzero = numpy.logical_or(is_nonzero, a.t2 != 0)", "        is_nonzero = numpy.logical_or(is_nonzero, a.z != 0)")
 m("awkward-reduce_sum-drops-with_name", ["C17"], "src/vector/backends/awkward.py", "        with_name=layout.purelist_parameter(\"__record__\"),\n    )\n\n\ndef _reduce_count(", "    )\n\n\ndef _reduce_count(")
 # ---- C04
-m("to_rhophieta-uses-theta", ["C04", "C01", "C02"], "src/vector/_methods.py",
+m("to_rhophieta-uses-theta", ["C04", "C02"], "src/vector/_methods.py",
   "            lcoord = spatial.eta.dispatch(self)\n\n        return self._wrap_result(\n            type(self),\n            (planar.rho.dispatch(self), planar.phi.dispatch(self), lcoord),\n            [AzimuthalRhoPhi, LongitudinalEta, None],",
   "            lcoord = spatial.theta.dispatch(self)\n\n        return self._wrap_result(\n            type(self),\n            (planar.rho.dispatch(self), planar.phi.dispatch(self), lcoord),\n            [AzimuthalRhoPhi, LongitudinalEta, None],")
 m("to_Vector4D-ignores-M", ["C04"], "src/vector/_methods.py",
@@ -96,7 +96,7 @@ m("like-4D-other-returns-3D", ["C04", "C05"], "src/vector/_methods.py",
   "        elif isinstance(other, Vector3D):\n            return self.to_Vector3D()\n        else:\n            return self.to_Vector3D() if isinstance(self, Vector2D) else self.to_Vector4D()")
 # ---- C05
 m("momentumnumpy3D-projection2D-generic", ["C05"], "src/vector/backends/numpy.py", "MomentumNumpy3D.ProjectionClass2D = MomentumNumpy2D", "MomentumNumpy3D.ProjectionClass2D = VectorNumpy2D")
-m("flavor_of-all", ["C05", "C03"], "src/vector/_methods.py", "    is_momentum = any(isinstance(obj, Momentum) for obj in objects)", "    is_momentum = all(isinstance(obj, Momentum) for obj in objects if isinstance(obj, Vector))")
+m("flavor_of-all", ["C05"], "src/vector/_methods.py", "    is_momentum = any(isinstance(obj, Momentum) for obj in objects)", "    is_momentum = all(isinstance(obj, Momentum) for obj in objects if isinstance(obj, Vector))")
 m("isclose-no-dimension-check", ["C05"], "src/vector/_methods.py",
   "        from vector._compute.spatial import isclose\n\n        _maybe_same_dimension_error(self, other, self.isclose.__name__)\n", "        from vector._compute.spatial import isclose\n\n")
 # ---- C06
@@ -120,7 +120,7 @@ m("x-setter-uses-x-for-partner", ["C15"], "src/vector/backends/object.py",
   "    @x.setter\n    def x(self, x: float) -> None:\n        self.azimuthal = AzimuthalObjectXY(x, self.x)\n\n    @property\n    def y(self) -> float:\n        return super().y\n\n    @y.setter\n    def y(self, y: float) -> None:\n        self.azimuthal = AzimuthalObjectXY(self.x, y)\n\n    @property\n    def rho(self) -> float:\n        return super().rho\n\n    @rho.setter\n    def rho(self, rho: float) -> None:\n        self.azimuthal = AzimuthalObjectRhoPhi(rho, self.phi)\n\n    @property\n    def phi(self) -> float:\n        return super().phi\n\n    @phi.setter\n    def phi(self, phi: float) -> None:\n        self.azimuthal = AzimuthalObjectRhoPhi(self.rho, phi)\n\n    @property\n    def z(self)")
 m("replace_data-eta-into-theta-slot", ["C15"], "src/vector/backends/object.py",
   "            obj.longitudinal = LongitudinalObjectTheta(result.theta)", "            obj.longitudinal = LongitudinalObjectTheta(result.eta)")
-m("isub-calls-add", ["C15", "C11"], "src/vector/backends/object.py",
+m("isub-calls-add", ["C15"], "src/vector/backends/object.py",
   "        return _replace_data(self, numpy.subtract(self, other))", "        return _replace_data(self, numpy.add(self, other))")
 # ---- C19
 m("getitem-temporal-uses-ltype-names", ["C19"], "src/vector/backends/numpy.py",
